@@ -98,6 +98,7 @@ def gen_random(chk, n):
             else:
                 for _ in range(r.randint(0, 4)):
                     specs.append(conn_spec(r, nreq))
+                    if r.random() < 0.04: specs.append('R')
                 if specs and r.random() < 0.15 and ('x' in specs[-1] or 'p' in specs[-1] or 'g' in specs[-1]):
                     specs[-1] += '*'
             nodes.append(' '.join(specs))
@@ -139,6 +140,10 @@ CORPUS = [
     'pipe d 1 c 100 2000 1024 s1 s2 / c,s1',
     'pipe d 1 c 3000 2500 1024 s1 z20 s2 z1100 s3 / R',
     'pipe d 1 c 3000 2500 1024 s1 z5 m2,3 z1100 s4 / R R',
+    'pipe d 1 c 3000 2500 1024 s1 s2 / c,x1 R',
+    'pipe f 1 c 3000 2500 1024 s1 s2 s3 y s4 / c,p2.4,d2 R c',
+    'pipe d 1 c 3000 2000 1024 s1 / c,w1*',
+    'pipe d 1 c 3000 2000 1024 s1 s2 / c,w2 c,w1 c,x1',
     'pipe d 1 c 3000 1500 1024 s1 s2 y close / c,s0',
     'pipe f 1 c 3000 1500 1024 s1 s2 z3 close / c,l50',
     # session mode: fragmented client pipeline, reply order
